@@ -1,5 +1,6 @@
 import ComposeVerif.Lemmas.Heap
 import ComposeVerif.Gen.CopyPlan
+import ComposeVerif.Gen.Derivations
 /-!
 # C14 — projects are immutable values: derivations copy, never alias or mutate
 
@@ -156,6 +157,35 @@ theorem history_isolated {t : Ty} {p : Plan} (hd : deep t p = true) :
         have := hb a ha
         have := hd'.2.2.1
         omega
+
+/-! ## the derivations of `types/project.go`, as they are in the tree now (facts regenerated by `translator/escapes.go`)
+
+`derivation_isolated` assumes `Confined`: after the copy, nothing is written through the receiver and no value read from
+the receiver is stored.  The following theorems re-check the syntactic counterpart of that hypothesis on every run. -/
+
+open CV.Gen.Derivations in
+/-- no derivation stores, returns or hands on a reference-bearing value read from its receiver, and none writes through it -/
+theorem no_receiver_escape : receiverEscapes = [] ∧ receiverWrites = [] := by decide
+
+open CV.Gen.Derivations in
+/-- every method of `Project` that returns a `*Project` obtains it from `recv.deepCopy()` (or from another derivation) and
+returns only that copy, `nil`, or another derivation's result -/
+theorem derivations_start_from_copy :
+    ∀ d ∈ derivations, (d.2.1 = "copy" ∨ d.2.1 = "delegate") ∧ ∀ r ∈ d.2.2, r = "copy-var" ∨ r = "nil" ∨ r = "delegate" := by
+  decide
+
+open CV.Gen.Derivations in
+/-- the derivations that exist are exactly the ones the real-code oracle drives (`harness/c14.go`, `c14OpPool`);
+a new derivation breaks this theorem until the oracle covers it -/
+theorem derivations_listed :
+    derivations.map (·.1) = ["WithImagesResolved", "WithProfiles", "WithSelectedServices", "WithServicesDisabled",
+      "WithServicesEnabled", "WithServicesEnvironmentResolved", "WithServicesLabelsResolved", "WithServicesTransform",
+      "WithoutUnnecessaryResources"] := by
+  decide
+
+open CV.Gen.Derivations in
+/-- `ForEachService` hands every visitor a deep copy of the service -/
+theorem visitor_gets_copy : visitorArgs = ["service.deepCopy()"] := by decide
 
 /-! ## non-vacuity: the hypotheses are satisfiable by non-trivial values -/
 
